@@ -17,10 +17,12 @@ CYCLE = 2 * sp.pi
 PH = "pulsarbat.pulsar.phase."
 
 
-def make_phase(prog, name, imaginary=False):
+def make_phase(prog, name, imaginary=False, cycle=None):
     ci = prog.cls("Phase")
     i_, f_ = sp.Symbol(name + "_int", real=True), sp.Symbol(name + "_frac", real=True)
     o = ObjV(ci, {"imaginary": BoolV(imaginary), "_pint": Num(i_), "_pfrac": Num(f_)}, tag=name)
+    if cycle is not None:
+        o.attrs["_cycle"] = Num(cycle)        # numeric value of one cycle (1 when the floating-point grouping is studied)
     _methods(o)
     return o
 
@@ -48,7 +50,9 @@ def part(o, item):
     e = o.attrs["_pint" if item == "int" else "_pfrac"].expr
     if o.attrs["imaginary"].b:
         e = sp.I * e
-    return Num(e * CYCLE, kind="quantity", unit=CYCLE, dtype=ExtV("numpy.complex128" if o.attrs["imaginary"].b else "numpy.float64"))
+    cyc = o.attrs["_cycle"].expr if "_cycle" in o.attrs else CYCLE
+    val = e if cyc == 1 else e * cyc
+    return Num(val, kind="quantity", unit=cyc, dtype=ExtV("numpy.complex128" if o.attrs["imaginary"].b else "numpy.float64"))
 
 
 class PhaseLog:
@@ -56,7 +60,7 @@ class PhaseLog:
         self.events = []
 
 
-def phase_evaluator(prog, log: PhaseLog, capture_day_frac=False, oracle=None):
+def phase_evaluator(prog, log: PhaseLog, capture_day_frac=False, oracle=None, grouping=False):
     """Evaluator with the Phase model installed."""
     counter = [0]
 
@@ -105,6 +109,7 @@ def phase_evaluator(prog, log: PhaseLog, capture_day_frac=False, oracle=None):
     else:
         ov[PH + "Phase.from_angles"] = ov_from_angles
     ev = Evaluator(prog, oracle=oracle, overrides=ov)
+    ev.grouping = grouping
     ev._frames = []
     orig_call = ev.call
 
